@@ -355,8 +355,8 @@ class Interp:
             return Fn("lib", name=fq)
         if fq in ("copy.deepcopy", "copy.copy"):
             return Fn("lib", name="identity")
-        if fq == "re.compile":
-            return Fn("lib", name="re.compile")
+        if fq in ("re.compile", "re.split", "re.sub", "re.subn", "re.match", "re.fullmatch", "re.search", "re.findall", "re.escape"):
+            return Fn("lib", name=fq)
         if root == "re" and last.isupper():
             import re as _re
             if isinstance(getattr(_re, last, None), _re.RegexFlag):
@@ -567,6 +567,11 @@ class Interp:
             if same is None:
                 return Top("identity unknown")
             return Const(same if isinstance(op, ast.Is) else not same)
+        if not (isinstance(l, Const) and isinstance(r, Const)) and isinstance(op, (ast.Eq, ast.NotEq, ast.Lt, ast.LtE, ast.Gt, ast.GtE)):
+            from .shapes_lib import _NOPY, to_py
+            pl, pr = to_py(l), to_py(r)
+            if pl is not _NOPY and pr is not _NOPY:  # containers of constants compare like the Python values they denote
+                l, r = Const(pl), Const(pr)
         if isinstance(l, Const) and isinstance(r, Const):
             try:
                 fn = {ast.Eq: lambda a, b: a == b, ast.NotEq: lambda a, b: a != b, ast.Lt: lambda a, b: a < b, ast.LtE: lambda a, b: a <= b,
